@@ -196,9 +196,8 @@ Definition next_stream_id (last : Z) (client : bool) : option (Z * Z) :=
     else Some (issued, next).
 
 (** [start_stream]: the peer's MAX_CONCURRENT_STREAMS, then a fresh identifier.
-    [w] is the window the shared [Stream] object carries when it is attached
-    (set by whoever created it: the frontend connection). *)
-Definition start_stream (c : conn) (w : Z) (chunks : list Z) : conn * option Z :=
+    [w] is the window the stream gets on this connection. *)
+Definition start_stream_with (c : conn) (w : Z) (chunks : list Z) : conn * option Z :=
   if max_conc c <=? Z.of_nat (length (streams c)) then (c, None)
   else
     match next_stream_id (last_id c) (is_client c) with
@@ -207,6 +206,11 @@ Definition start_stream (c : conn) (w : Z) (chunks : list Z) : conn * option Z :
       (mkconn (cwin c) (init_win c) (max_frame c) (max_conc c) next (is_client c)
               (streams c ++ [mkstream issued w chunks]) true, Some issued)
     end.
+
+(** since fix 'per-direction stream windows': the stream's send window on this
+    connection is initialised from THIS peer's SETTINGS_INITIAL_WINDOW_SIZE *)
+Definition start_stream (c : conn) (chunks : list Z) : conn * option Z :=
+  start_stream_with c (init_win c) chunks.
 
 (** One stream's turn in [write_streams]. *)
 Definition write_stream (fuel : nat) (c : conn) (x : stream) : option (stream * Z * list Z) :=
